@@ -160,6 +160,7 @@ type FX struct {
 	unsupported []string
 	inputs map[string]string
 	usesAx map[string]bool
+	usedAssumed map[string]bool // assumed contracts (externs, trusted functions, trusted-ensures clauses) applied at call sites
 	assumeSafe bool // do not emit safe obligations (used for refinement-only runs)
 	curFn  *ssa.Function
 	inlineStack []*ssa.Function
